@@ -1,14 +1,20 @@
 """C03 — raw DAQ files are decoded event-by-event exactly as encoded (DESIGN.md section 6/C03).
 
-model  : Model/RawParser.lean (C++ parser) ; Spec/RawFormat.lean (format, encoders, intended decode)
+model  : Model/RawParser.lean (C++ parser) ; Spec/RawFormat.lean (format, encoders, intended decode) ;
+         Model/RawFile.lean (Python framing `_preprocess_file` / `_read_batch` on the bytes of the file, composed with the batch
+         loop of Model/RawReader.lean and the parser) ; Spec/RawFileFormat.lean (byte-level file encoder)
 proof  : Props/C03.lean (+C03a, C03b: word unpacking, T/Q merge, nested fragments, whole streams, selection) + Props/RawTie.lean
-tie    : generated well-formed files: Lean parse <-> native build of the working-tree parser <-> `expected`;
+         + Props/C03File.lean (file level: any name/tag length, any batch size, any completion order)
+tie    : file bytes -> records of Model/RawFile.lean <-> pybes3.open_raw(path).arrays(n_blocks, n_block_per_batch) on well-formed files
+         and on files with one corrupted framing field (outcome class and every column);
+         generated well-formed files: Lean parse <-> native build of the working-tree parser <-> `expected`;
          the real Python reader `pybes3.open_raw(path).arrays(decode_reid=False)` on the same files (read_bes_raw
          backed by the native working-tree build; additionally the installed extension when the C++ is unchanged)
 oracle : `expected` (Python twin of Spec/RawFormat.lean, checked against the Lean model on every run)
 """
 from __future__ import annotations
 
+import json
 import os
 import random
 
@@ -35,6 +41,114 @@ def shrink_blocks(blocks, fails):
     return cur
 
 
+FRAMING_MUTATIONS = ["none", "start-flag", "name-flag", "name-len+1", "name-len+4", "tag-len+4", "params-flag", "tail-flag", "end-flag", "sep-flag", "block-size+4", "block-size-4",
+                     "block-size+1", "truncate-4", "append-4", "drop-tail"]
+
+
+def mutate_framing(data: bytes, kind: str, name_len: int, tag_len: int, rng) -> bytes:
+    """corrupt one framing field of a well-formed file (byte offsets follow tools/lib/rawfile.py::enc_file)"""
+    b = bytearray(data)
+    def put(off, v):
+        b[off:off + 4] = int(v % 2**32).to_bytes(4, "little")
+    def get(off):
+        return int.from_bytes(b[off:off + 4], "little")
+    p_name = 32
+    p_tag = p_name + 8 + (name_len + 3) // 4 * 4
+    p_par = p_tag + 4 + (tag_len + 3) // 4 * 4
+    d0 = p_par + 36
+    if kind == "start-flag": put(0, get(0) ^ 1)
+    elif kind == "name-flag": put(p_name, get(p_name) ^ 0x100)
+    elif kind == "name-len+1": put(p_name + 4, name_len + 1)
+    elif kind == "name-len+4": put(p_name + 4, name_len + 4)
+    elif kind == "tag-len+4": put(p_tag, tag_len + 4)
+    elif kind == "params-flag": put(p_par, get(p_par) ^ 0x10)
+    elif kind == "tail-flag": put(len(b) - 40, get(len(b) - 40) ^ 1)
+    elif kind == "end-flag": put(len(b) - 4, get(len(b) - 4) ^ 1)
+    elif kind in ("sep-flag", "block-size+4", "block-size-4", "block-size+1"):
+        if d0 >= len(b) - 40:
+            return bytes(b)
+        if kind == "sep-flag": put(d0, get(d0) ^ 1)
+        elif kind == "block-size+4": put(d0 + 12, get(d0 + 12) + 4)
+        elif kind == "block-size-4": put(d0 + 12, max(get(d0 + 12) - 4, 0))
+        else: put(d0 + 12, get(d0 + 12) + rng.choice([1, 2, 3]))
+    elif kind == "truncate-4": b = b[:-4]
+    elif kind == "append-4": b += b"\0\0\0\0"
+    elif kind == "drop-tail": b = b[:-40]
+    return bytes(b)
+
+
+def file_level_tie(chk: core.Check, rng, cases, thorough) -> int:
+    """Model/RawFile.lean (framing + batch loop + parser model, on the bytes of the file) <-> pybes3.open_raw(path).arrays(...):
+    outcome class (arrays / assertion) and, when both decode, every column; well-formed files and one-field framing corruptions."""
+    import pybes3
+    limit = 5000                     # bytes: the list-based model is quadratic in the file size
+    todo = []
+    for idx, (bl, sel, name, tag) in enumerate(cases):
+        data = rf.enc_file(bl, name=name, tag=tag)
+        if len(data) > limit:
+            continue
+        kinds = ["none"] + ([rng.choice(FRAMING_MUTATIONS[1:])] if rng.random() < 0.7 else [])
+        for kd in kinds:
+            d2 = mutate_framing(data, kd, len(name), len(tag), rng)
+            pb = rng.choice([1, 1, 2, 3, 1000])
+            nb = rng.choice([-1, -1, 0, 1, 2, len(bl), len(bl) + 3])
+            sched = [rng.randrange(0, 4) for _ in range(rng.randrange(0, 6))]
+            todo.append((idx, kd, d2, pb, nb, sched, sel, bl))
+        if len(todo) >= (1200 if thorough else 160):
+            break
+    text = "".join(f"{native.sel_mask(sel)} {pb} {nb} {','.join(map(str, sched)) or '-'} {d.hex()}\n" for _, _, d, pb, nb, sched, sel, _ in todo)
+    try:
+        out = core.lean_run("Driver/RawFile.lean", text, timeout=1200)
+    except core.DriverError as ex:
+        chk.obligation_broken("correspondence", "RawFile driver", str(ex))
+        return 0
+    diffs = []
+    for (idx, kd, d, pb, nb, sched, sel, bl), line in zip(todo, out):
+        path = rc.write_tmp(d)
+        try:
+            try:
+                with rc.NativeBackedReader():
+                    with pybes3.open_raw(path) as r:
+                        arr = r.arrays(n_blocks=nb, n_block_per_batch=pb, sub_detectors=sel, decode_reid=False)
+                py = ("ok", rc.expected_to_columns(rc.ak_to_records(arr, sel), sel))
+            except UnicodeDecodeError:
+                chk.hist("file_tie_outcome", "skipped (name bytes not utf-8 after corruption: outside the model)")
+                continue
+            except (AssertionError, RuntimeError, OSError, ValueError) as ex:
+                py = ("raise", type(ex).__name__)
+        finally:
+            os.unlink(path)
+        ml = ("ok", json.loads(line.split(" ", 2)[2])) if line.startswith("OK ") else ("raise", line)
+        chk.hist("file_tie_mutation", kd)
+        chk.hist("file_tie_outcome", py[0] if py[0] == "ok" else "raise/" + py[1])
+        chk.count(1, key=f"ft-{idx}-{kd}")
+        bad = None
+        eager = kd in ("none", "start-flag", "name-flag", "params-flag", "tail-flag", "end-flag", "truncate-4", "append-4", "drop-tail")
+        if py[0] == "ok" and ml[0] != "ok" and not eager:
+            # the reader walks the blocks lazily (only those it is asked for, and the last block of a batch may overshoot unchecked);
+            # the model checks the whole framing first: on a corrupted block chain it is stricter than the reader, never more lenient
+            chk.hist("file_tie_outcome", "corrupted block chain: reader lenient, model strict (allowed)")
+        elif py[0] != ml[0]:
+            bad = f"python: {py[0]} {py[1] if py[0] != 'ok' else ''} ; model: {ml[0]} {ml[1] if ml[0] != 'ok' else ''}"
+        elif py[0] == "ok" and not rc.same_columns(rc.canon_model(ml[1]), py[1]):
+            bad = "both decode, columns differ"
+        elif py[0] == "ok" and kd == "none":
+            want = bl if nb == -1 else bl[:nb]
+            exp = rc.expected_to_columns(rf.expected([e for b in want for e in b], sel), sel)
+            if not rc.same_columns(py[1], exp):
+                chk.failing_input("pybes3.open_raw(path).arrays(n_blocks, n_block_per_batch, decode_reid=False) [native C++]",
+                                  {"file_bytes_hex": d.hex(), "n_blocks": nb, "n_block_per_batch": pb, "sub_detectors": sel}, str(py[1])[:1500], str(exp)[:1500],
+                                  "one record per event of the requested blocks, in file order, exactly as encoded")
+                break
+        if bad:
+            diffs.append({"mutation": kd, "n_blocks": nb, "per_batch": pb, "file_len": len(d), "what": bad[:300], "file_bytes_hex": d.hex()[:2000]})
+            if len(diffs) >= 3:
+                break
+    if diffs:
+        chk.obligation_broken("correspondence", "Model/RawFile.lean (file bytes -> records) vs pybes3.open_raw(...).arrays(...)", str(diffs[:2]))
+    return len(todo)
+
+
 def main(chk: core.Check) -> int:
     thorough = chk.tier == "thorough"
     rng = random.Random(f"C03-{chk.seed}")
@@ -45,7 +159,7 @@ def main(chk: core.Check) -> int:
                         "the Python reader runs with read_bes_raw backed by the native build of the working-tree C++ (the installed binary cannot be rebuilt)"]
     ok_gen = rc.regen(chk)
     if ok_gen:
-        chk.prove(modules=["C03", "C03a", "C03b", "RawTie"])
+        chk.prove(modules=["C03", "C03a", "C03b", "C03File", "RawTie"])
     import pybes3
     cpp_unchanged = core.run_cmd(["git", "-C", str(core.REPO), "diff", "--quiet", "631bbaa", "--", "src/pybes3/besio/cpp/raw_io.cc", "src/pybes3/besio/cpp/raw_io.hh"])[0] == 0
     cases = []
@@ -134,7 +248,8 @@ def main(chk: core.Check) -> int:
             break
         finally:
             os.unlink(path)
-    chk.coverage["traces_validated_against_impl"] = len(cases) + len(py_cases)
+    n_file_tie = file_level_tie(chk, rng, cases, thorough) if ok_gen else 0
+    chk.coverage["traces_validated_against_impl"] = len(cases) + len(py_cases) + n_file_tie
     chk.coverage["installed_extension_also_run"] = cpp_unchanged
     chk.sample({"n_events": sum(len(b) for b in cases[6][0]), "sub_detectors": cases[6][1], "first_words": [hex(x) for x in bufs[6][0][:24]]})
     return chk.finish(None)
